@@ -387,6 +387,8 @@ def replay_ce(ce):
     """realise the step counterexample natively: a hand-built node (public operator_mut / children_mut API) of the same operator whose
     k children are calls to recording user functions c0..c{k-1} that return a value of the chosen kind or fail; compare the call log
     and the error with the reference: strict left-to-right, stop at the first failing child"""
+    if ce.get('walk'):
+        return replay_walk(ce)
     op = ce['operator']
     k = ce['children']
     outcomes = dict((i, t) for i, t in ce['child_outcomes'] if i >= 0)
@@ -453,6 +455,39 @@ def replay_ce(ce):
         details.append('%s: %s node with %d children: call log %s (reference %s), result %s' % (prof, op, k, got_log, want_log, res_))
         bad = bad or not okk
     return ('reproduced' if bad else 'not_reproduced'), details
+
+
+def replay_walk(ce):
+    """realise a tree-walk counterexample natively: the same tree shape built from recording user functions (node i = call `n<i>(children...)`), the
+    j-th application in post-order fails; expected: calls in post-order up to and including the failing one, its error returned (or success)"""
+    import ast
+    forest = ast.literal_eval(ce['forest'])
+    counter = [0]
+    order = []
+
+    def build(shape):
+        i = counter[0]
+        counter[0] += 1
+        kids = [build(s) for s in shape]
+        order.append(i)
+        return 'n%d(%s)' % (i, ', '.join(kids) if kids else '0')
+    expr = build(forest)
+    n = counter[0]
+    details = []
+    bad = False
+    for prof in ('dev', 'release'):
+        for entry in ('eval_with_context_mut', 'eval_with_context'):
+            for fail_at in [None] + list(range(n)):
+                funcs = [('n%d' % i, 'fail' if (fail_at is not None and order[fail_at] == i) else 'log') for i in range(n)]
+                o = replay.run_cases(replay.case_text('w', entry, expr, funcs=funcs), prof)['w']
+                got = [nm for nm, a in o.get('log', [])]
+                want = ['n%d' % i for i in (order if fail_at is None else order[:fail_at + 1])]
+                r = o.get('result')
+                okk = got == want and bool(r) and ((fail_at is None and r[0] == 'Ok') or (fail_at is not None and r[0] == 'Err' and r[1] == 'CustomMessage'))
+                if not okk:
+                    bad = True
+                    details.append('%s %s: `%s` with the %s application failing: calls %s (expected %s), result %s' % (prof, entry, expr, fail_at, got, want, r))
+    return ('reproduced' if bad else 'not_reproduced'), details[:6] or ['the realised tree is walked in post-order with first-error-wins natively']
 
 
 def e2e_check(res):
